@@ -356,6 +356,11 @@ func checkC13(c *Ctx) Meta {
 	c.Rule("C13-STUCK", "a space never stays `plotting` without a plot run: after ws.Plot() returns, the plotter always moves the space out of plotting (otherwise later requests for it find no popped item and panic, and remove/delete refuse for ever); lock acquisitions in the keeper are released on every path", 2)
 	checkStep3(c, "C13-STUCK", pkgCapacity, "capacity")
 	checkStep3(c, "C13-STUCK", pkgSkchia, "skchia")
+	c.Rule("C13-MONITOR", "the goroutine watching one plot run ends with that run: the channel handed to it is made in the same iteration of the plotter loop and released by close(), never shared between iterations or signalled by a token (a stale token lets the next plot run unwatched, and stopping the keeper then waits for that plot to finish)", 2)
+	checkMonitorPerPlot(c, "C13-MONITOR", pkgCapacity, "capacity")
+	checkMonitorPerPlot(c, "C13-MONITOR", pkgSkchia, "skchia")
+	c.Rule("C13-PAIR", "every lock the keeper, its engines and the plot database take explicitly is released on every path to a return of the same function (deferred, or an Unlock before each return): an early return that skips the Unlock blocks every later request on stateLock forever", 20)
+	checkLockPairing(c, "C13-PAIR", []string{pkgCapacity, pkgSkchia, pkgMassDBV1, pkgEngine, pkgEngineV2})
 	c.Rule("C13-POP", "the plotter queue's heap is popped only under the queue mutex behind a non-emptiness test in the same lock hold, and items popped from the shared queue are nil-tested before use", 8)
 	c.Rule("C13-QUEUE", "the plotter queue's heap is accessed only under the queue mutex by code that can run concurrently with the keeper API", 2)
 
@@ -1098,4 +1103,86 @@ func onceLifetimeMatchesChannel(c *Ctx, fn *ssa.Function, closeIn ssa.Instructio
 		}
 	}
 	return "", true
+}
+
+// checkMonitorPerPlot: the goroutine that watches one plot run (stop the plot when the keeper quits) is
+// told to end through a channel of its own: the channel handed to a `go` statement of the plotter is made
+// in the same loop iteration and released by close(), never by a send of a token — a channel shared
+// between iterations keeps a stale token when a queue entry is skipped, the next plot's monitor consumes
+// it and exits, and Stop() then waits for a plot nobody interrupts.
+func checkMonitorPerPlot(c *Ctx, rule, pkg, label string) {
+	f := c.MustFn(rule, strings.TrimPrefix(pkg, repoMod+"/"), "(*SpaceKeeper).spacePlotter")
+	if f == nil {
+		return
+	}
+	key := label + ".spacePlotter:monitor-channel-per-plot"
+	n := 0
+	bad := ""
+	for _, g := range withClosures(f) {
+		g := g
+		allInstrs(g, func(in ssa.Instruction) {
+			goi, ok := in.(*ssa.Go)
+			if !ok {
+				return
+			}
+			for _, a := range goi.Call.Args {
+				if _, isCh := a.Type().Underlying().(*types.Chan); !isCh {
+					continue
+				}
+				n++
+				var mk *ssa.MakeChan
+				valueOrigins(g, a, func(root ssa.Value) {
+					if m, isM := root.(*ssa.MakeChan); isM {
+						mk = m
+					} else {
+						bad = "the channel handed to the monitor goroutine at " + c.Pos(goi.Pos()) + " is not made by the plotter"
+					}
+				})
+				if mk == nil {
+					if bad == "" {
+						bad = "the channel handed to the monitor goroutine at " + c.Pos(goi.Pos()) + " is not made by the plotter"
+					}
+					continue
+				}
+				if mk.Parent() != g || !blockReentered(g, mk) || !blockReentered(g, goi) {
+					bad = "the monitor channel (made at " + c.Pos(mk.Pos()) + ") is not made anew in the loop iteration that starts the monitor: monitors of different plots share it"
+					continue
+				}
+				closed, sent := false, false
+				for al := range aliasesForward(g, mk) {
+					if refs := al.Referrers(); refs != nil {
+						for _, r := range *refs {
+							switch x := r.(type) {
+							case *ssa.Call:
+								if b, isB := x.Call.Value.(*ssa.Builtin); isB && b.Name() == "close" {
+									closed = true
+								}
+							case *ssa.Send:
+								if x.Chan == al {
+									sent = true
+								}
+							case *ssa.Select:
+								for _, st := range x.States {
+									if st.Dir == types.SendOnly && st.Chan == al {
+										sent = true
+									}
+								}
+							}
+						}
+					}
+				}
+				if !closed || sent {
+					bad = fmt.Sprintf("the monitor channel made at %s is not released by close() alone (closed=%v, token sent=%v)", c.Pos(mk.Pos()), closed, sent)
+				}
+			}
+		})
+	}
+	switch {
+	case n == 0:
+		c.Bad(rule, key, c.Pos(f.Pos()), "reason=anchor-missing: no goroutine started with a channel argument in spacePlotter")
+	case bad != "":
+		c.Bad(rule, key, c.Pos(f.Pos()), bad)
+	default:
+		c.OK(rule, key, c.Pos(f.Pos()), "each monitor gets a channel made in its own iteration, released by close()")
+	}
 }
